@@ -301,7 +301,7 @@ func runPlz(plz, dir string, threads int, args ...string) (string, string, int) 
 
 func main() {
 	lib.Main("C07", func(c *lib.Ctx) {
-		c.Model("From PlzV Require Import Model.C08 Model.C07_Src Model.C07_Provide Model.C07_Hasher Model.C07_Tie.", "C07_Tie.case", "C07_Tie.check")
+		c.Model("From PlzV Require Import Model.C08 Model.C07_Src Model.C07_Provide Model.C07_Hasher Model.C07_Link Model.C07_Tie.", "C07_Tie.case", "C07_Tie.check")
 		c.Rule("in-process: random recipes with 0-5 dependencies and up to ten map-valued attributes of 0-5 entries; each performed once as generated and " +
 			"3 (thorough: 6) more times with every map's insertion order, the order of the AddDependency calls and their position relative to the sources shuffled; " +
 			"all real build.RuleHash values (rule hash and runtime hash) must be equal, equal to sha1 of the interpreted stream, and the Coq `ser prog` of both " +
@@ -325,6 +325,11 @@ func main() {
 			"after a failed one on the same path. xattr store: histories of 4-10 Hash calls by FRESH real hashers (core.NewDefaultBuildState().Hasher) of 2-4 of the six " +
 			"configured algorithms on real files under plz-out/ with random recalc / store flags; every call must return the digest the same algorithm computes with xattrs " +
 			"off; non-trivial = a read after another algorithm stored its digest on the file. " +
+			"link histories (end to end, link.go): a filegroup of one plain source file (output = hard link to the user's file) and a genrule consuming it, in package '' or p; " +
+			"the fixed history run / run -n 16 / edit in place / run and 2 (thorough: 16) random ones of 5-8 events (run, edit in place, replace by a new inode, rm -rf plz-out) over " +
+			"three contents, performed with the real binary on a file system with user xattrs; every report must equal the report of a fresh copy of the tree as it is at that " +
+			"moment (own directory and cache directory), and Model/C07_Link.v must predict the content whose Source hashes each run printed; non-trivial = >= 3 runs, one of them " +
+			"after an in-place edit. " +
 			"distinct = distinct stored states; non-trivial = >= 2 maps with >= 2 entries and >= 2 dependencies")
 		prog := rh.LoadProg()
 		t0 := time.Now()
@@ -402,6 +407,9 @@ func main() {
 			panic(err)
 		}
 		defer os.RemoveAll(base)
+		// ---- what earlier invocations leave behind: filegroup links, in-place edits (link.go)
+		runLinkStream(c, plz, base)
+		lap("e2e link histories")
 		nrepos := c.Scale(2, 25)
 		for ri := 0; ri < nrepos; ri++ {
 			r := c.Rng.Fork()
